@@ -41,7 +41,7 @@ from pathlib import Path
 sys.path.insert(0, str(Path(__file__).resolve().parent))
 from gen6 import run_solver, Z3, parse_values, log, ENV, VERIF, REPO, OUT, SCRATCH_ROOT, CACHE  # noqa
 
-TIERS = {"quick": (4, 3), "thorough": (5, 3)}      # (max chambers, max degree of the representations)
+TIERS = {"quick": (4, 3, 3), "thorough": (5, 3, 4)}      # (max chambers, max degree, renumber symbols up to this size)
 CAP = {"quick": 120, "thorough": 900}
 BV = 3
 CVC5 = ["cvc5", "--lang", "smt2", "--produce-models"]
@@ -70,9 +70,9 @@ def build_native(scratch):
     return target / "release/examples/verif_c09", "", time.time() - t0
 
 
-def run_dump(exe, n, timeout=900):
+def run_dump(exe, n, renum=0, timeout=900):
     try:
-        p = subprocess.run([str(exe), "dump", str(n)], stdout=subprocess.PIPE, stderr=subprocess.PIPE, timeout=timeout)
+        p = subprocess.run([str(exe), "dump", str(n), str(renum)], stdout=subprocess.PIPE, stderr=subprocess.PIPE, timeout=timeout)
     except subprocess.TimeoutExpired:
         return None, "fundamental_group did not terminate within %ds" % timeout
     if p.returncode != 0:
@@ -358,8 +358,8 @@ def evaluate_model(S, v):
     return "REFUTED covering: %s, relators hold: %s, reproduced: %s" % (adm, rel_ok, repro)
 
 
-def replay_native(exe, v, n):
-    syms, err = run_dump(exe, n)
+def replay_native(exe, v, n, renum=4):
+    syms, err = run_dump(exe, n, renum)
     if syms is None:
         return "CONFIRMED ground: " + err
     b = v["symbol"]
@@ -378,7 +378,7 @@ def run_check(tier, seed):
     if scratch.exists():
         shutil.rmtree(scratch)
     scratch.mkdir(parents=True)
-    n, k = TIERS[tier]
+    n, k, renum = TIERS[tier]
     ev = {"symbols": 0, "queries": 0, "unsat": 0, "sat": 0, "guards": 0, "solver_s": 0.0, "replays": 0, "ground": 0,
           "samples": [], "crosscheck": 0, "relators": 0}
     violations, inconclusive = [], []
@@ -389,7 +389,7 @@ def run_check(tier, seed):
             write_evidence(tier, seed, ev, 0, ["build failed"], time.time() - t_start)
             return 2
         log("[gen9] built native driver from %s in %.0fs" % (REPO, build_s))
-        syms, err = run_dump(exe, n)
+        syms, err = run_dump(exe, n, renum)
         if syms is None:
             violations.append({"kind": "ground", "symbol": {"size": 0, "ops": [], "ms": []}, "what": err})
             syms = []
@@ -408,7 +408,7 @@ def run_check(tier, seed):
             % (n, ev["symbols"], k, ev["queries"]))
         n_viol = 0
         for v in violations[:10]:
-            res = replay_native(exe, v, n)
+            res = replay_native(exe, v, n, renum)
             ev["replays"] += 1
             v["native"] = res
             if not res.startswith("CONFIRMED"):
@@ -459,7 +459,8 @@ def write_evidence(tier, seed, ev, n_viol, inconclusive, wall):
         },
         "assumptions": [
             "inputs: every symbol of DSyms::new(set, All) for every D-set of DSets::new(2, %d) (generators checked by C06 / C07); "
-            "permutation representations / coverings of degree at most %d" % TIERS[tier],
+            "permutation representations / coverings of degree at most %d; symbols with at most %d chambers also in every renumbering "
+            "of their chambers (the construction follows the numbering)" % TIERS[tier],
             "a presentation with edge words presents the orbifold group iff, for every degree, its permutation representations are "
             "exactly the coverings of the symbol with sheets transported along the spanning tree — decided here for small degrees "
             "only; this is the property's own proposal (subgroup counts of small index) made exact",
